@@ -187,6 +187,19 @@ def buffer_rules(ctx, rule_c, rule_d, rule_f):
             if not srch:
                 continue
             s_ = srch[0]
+            # every item of the search result is stored: between the search call and the stored value there are only
+            # into_iter / next steps (no take / skip / filter)
+            nx = [c for c in S.walk(v) if isinstance(c, tuple) and c and c[0] == "call" and c[1].endswith("Iterator::next")]
+            whole = False
+            for cand in ([nx[0][2][0]] if nx else [v]):
+                src0, st0 = U.chain(cand)
+                if S.strip_refs(src0) == S.strip_refs(s_) or (isinstance(src0, tuple) and S.norm(src0) == S.norm(s_)):
+                    whole = all(x[0] == "into_iter" for x in st0)
+            if not whole:
+                ctx.fail(rule_f, "refill-complete:%s" % root, where(b, p, t), "not every hit returned by Store::search is stored in the result "
+                         "buffer (the iterator is cut or filtered between the search and the buffer)",
+                         {"witness": "set_limit(20) on a fresh id, 16 matching records: only the first 10 hits are kept"})
+                continue
             store_o = ctx.model.origin(b, s_[2][0])
             tq = U.expr_calls(s_[2][1], "tokenize_query")
             if not tq:
